@@ -38,6 +38,7 @@ CORPUS = os.path.join(vlib.ROOT, 'corpus', PID)
 KF = {'string': 'c15-unfold-in-string', 'comment': 'c15-unfold-in-comment', 'glue': 'c15-unfold-glues-tokens',
       'linestart': 'c15-unfold-glues-tokens'}
 KF_POSONLY = 'c15-lambda-posonly'
+KF_SIGOVERRIDE = 'c15-lambda-signature-override'
 
 
 def generate():
@@ -359,6 +360,16 @@ class Harness(object):
         classify = None
         if want.args.posonlyargs and got is not None:
             classify = KF_POSONLY
+        if '__signature__' in getattr(lam, '__dict__', {}) and got is not None:
+            # known finding iff the substitution disappears once the foreign __signature__ attribute is taken away
+            saved = lam.__dict__.pop('__signature__')
+            try:
+                if ast.dump(parser.parse_entity(lam, ())[0]) == ast.dump(want):
+                    classify = KF_SIGOVERRIDE
+            except Exception:   # noqa
+                pass
+            finally:
+                lam.__signature__ = saved
         self.failures.append({
             'title': 'parse_entity returns a different lambda than the one that created %s' % key,
             'classify': classify,
